@@ -309,3 +309,7 @@ def r3_pairing(ctx):
 
 
 RULES = [("R1", r1_sinks), ("R2", r2_xmlname), ("R3", r3_pairing)]
+
+
+def THOROUGH_EXTRA(ctx):
+    return run_witnesses(ctx, "W", ['W3XmlNamePrivate'])
